@@ -27,6 +27,7 @@ def run(chk, facts, tier):
              'the failing edge disconnects with connection_instant_passed', floor=3)
     chk.rule('deferred-pdu-not-released', 'the receive buffer slot of a deferred PDU is not freed while the pointer is kept (or the parameters are copied)', floor=1)
     chk.rule('apply-at-instant', 'handle_pending_ll_control applies and clears the deferred PDU exactly under !empty && defered_conn_event_counter_ == instance', floor=1)
+    chk.rule('pending-instant-fresh', 'end_event hands plan_next_connection_event a pending instant that is computed after handle_received_data() (which may defer a procedure in this very event)', floor=1)
     chk.rule('resume-after-instant', 'handle_received_data stops only while a PDU is deferred and start_advertising_impl / apply clear the deferral', floor=2)
     seen = set()
     for q in (LL + 'handle_ll_control_data', PH + 'handle_phy_request'):
@@ -93,6 +94,22 @@ def run(chk, facts, tier):
             app = [c for c in fn.body.calls() if c.cn in ('reset', 'parse_timing_parameters_from_connection_update_request', 'handle_pending_phy_request')]
             ok = eq and ne and len(app) == 3 and all(fn.dominates(fn.block_of(clr[0]), fn.block_of(clr[0])) for a in app)
         chk.instance('apply-at-instant', fn, 'apply + clear under !empty && instant == event counter', ok, '' if ok else 'the deferred procedure is not applied/cleared exactly at its instant', key='apply')
+    for fn in variants(facts, LL + 'end_event', chk):
+        plan = fn.body.calls('plan_next_connection_event')
+        hr = fn.body.calls('handle_received_data')
+        ok = len(plan) == 1 and len(hr) == 1
+        if ok:
+            arg = strip_casts(plan[0].args()[-1])
+            src = arg
+            if arg.k in REF_KINDS:
+                ds = fn.body.find(lambda n: n.k == 'VarDecl' and n.n == arg.n)
+                src = ds[0] if ds else None
+            ok = src is not None and mentions(src, 'defered_ll_control_pdu_') and mentions(src, 'defered_conn_event_counter_')
+            if ok:
+                first = next((x for x in src.walk() if x.i >= 0), None)
+                ok = first is not None and precedes(fn, hr[0], first)
+        chk.instance('pending-instant-fresh', fn, 'pending instant sampled after handle_received_data()', ok,
+                     '' if ok else 'the latency planner sees the deferral state from before this event\'s PDUs were handled: an instant announced in this event can be skipped by peripheral latency', key='pending instant')
     for fn in variants(facts, LL + 'start_advertising_impl', chk):
         clr = [st for tgt, op, val, st in stores(fn.body) if target_name(tgt) == 'defered_ll_control_pdu_']
         chk.instance('resume-after-instant', fn, 'disconnect clears the deferral', len(clr) == 1, '' if clr else 'a deferred PDU survives the connection', key='clear on adv')
